@@ -108,6 +108,12 @@ def make_solver(kind):
         return np.linalg.solve(A, np.asarray(b, dtype=float))
     if kind == "default":
         return None, None, "plain"
+    if kind == "default-empty-kwargs":      # falsy but valid option value
+        return None, {}, "plain"
+    if kind == "default-gen":               # keyword forwarded to scipy.linalg.solve
+        return None, {"assume_a": "gen", "check_finite": True}, "plain"
+    if kind == "scipy-explicit":
+        return scipy.linalg.solve, None, "plain"
     if kind == "plain":
         return (lambda A, b: base(A, b)), None, "plain"
     if kind == "kw":
@@ -130,7 +136,8 @@ def make_solver(kind):
     raise ValueError(kind)
 
 
-SOLVER_KINDS = ["default", "plain", "kw", "t0", "t1", "t2", "t3", "raise"]
+SOLVER_KINDS = ["default", "plain", "kw", "t0", "t1", "t2", "t3", "raise", "default-empty-kwargs", "default-gen", "scipy-explicit"]
+DEFAULTISH = ["default", "default", "default-empty-kwargs", "default-gen", "scipy-explicit"]
 
 
 def errname(e):
@@ -225,7 +232,8 @@ def scale_time(F, ts, sigma):
     return G, np.asarray(ts, dtype=float) * sigma
 
 
-DT_VARIANTS = ["int-all", "bool-ic", "int-param-ic", "f32-data", "f32-all", "int-ts", "list-ts-list-p", "0d-free"]
+DT_VARIANTS = ["int-all", "bool-ic", "int-param-ic", "f32-data", "f32-all", "int-ts", "list-ts-list-p", "0d-free",
+               "uint8-ic", "int8-data", "f16-data", "fortran-op", "readonly", "strided-p", "negstride-p", "cuqiarray-p", "shared-arrays"]
 
 
 def dtype_time_case(rng, n, variant):
@@ -237,7 +245,9 @@ def dtype_time_case(rng, n, variant):
     if variant == "bool-ic":
         c0 = np.array([float(rng.random() < 0.5) for _ in range(n)]); c0[0] = 1.0
         F.update(c0=c0, B=np.eye(n))
-    elif variant == "int-param-ic":
+    elif variant == "uint8-ic":           # non-negative counts: an unsigned buffer would wrap below zero
+        F.update(c0=np.array([float(rng.randint(0, 3)) for _ in range(n)]), B=np.eye(n))
+    elif variant in ("int-param-ic", "shared-arrays"):
         F.update(C=np.eye(n))
     else:
         F.update(c0=np.array([float(rng.randint(-3, 3)) for _ in range(n)]), C=np.eye(n))
@@ -265,13 +275,42 @@ def dtype_views(variant, F, p, ts):
             return A.astype(np.float32), b.astype(np.float32), ic.astype(np.float32)
         if variant == "list-ts-list-p":
             return A, b, [float(x) for x in ic]     # (a python-list source with a python-list time grid is refused loudly: float * list)
+        if variant == "uint8-ic":
+            return A, b, ic.astype(np.uint8)
+        if variant == "int8-data":
+            return A.astype(np.int8), b.astype(np.int8), ic.astype(np.int8)
+        if variant == "f16-data":
+            return A, b.astype(np.float16), ic.astype(np.float16)
+        if variant == "fortran-op":
+            return np.asfortranarray(A), b[::-1][::-1], np.ascontiguousarray(ic)
+        if variant == "readonly":
+            for arr in (A, b, ic):
+                arr.setflags(write=False)
+            return A, b, ic
         return A, b, ic
 
+    shared = {}
+
     def form(par, t):
+        if variant == "shared-arrays":       # the user's closure hands back the SAME operator / source objects at every call, and the parameter itself
+            if "A" not in shared:
+                shared["A"], shared["b"], _ = fam_eval(F, par, float(t))
+            return shared["A"], shared["b"], par
         A, b, ic = fam_eval(F, par, float(t))
         return cast(A, b, ic, par)
+    form.shared = shared
     pv_ = {"int-all": p.astype(np.int64), "int-param-ic": p.astype(np.int64), "f32-data": p.astype(np.float32), "f32-all": p.astype(np.float32),
-           "list-ts-list-p": [float(x) for x in p]}.get(variant, p.copy())
+           "list-ts-list-p": [float(x) for x in p], "int8-data": p.astype(np.int8), "f16-data": p.astype(np.float16)}.get(variant, p.copy())
+    if variant == "strided-p":
+        big = np.zeros(2 * len(p)); big[::2] = p; pv_ = big[::2]
+    elif variant == "negstride-p":
+        pv_ = p[::-1].copy()[::-1]
+    elif variant == "readonly":
+        pv_ = p.copy(); pv_.setflags(write=False)
+    elif variant == "cuqiarray-p":
+        from cuqi.array import CUQIarray
+        from cuqi.geometry import Continuous1D
+        pv_ = CUQIarray(p.copy(), geometry=Continuous1D(len(p)))
     tv = {"f32-all": ts.astype(np.float32), "int-ts": ts.astype(np.int32), "list-ts-list-p": [float(x) for x in ts]}.get(variant, ts.copy())
     return form, pv_, tv
 
@@ -325,6 +364,37 @@ def gen_time_family(rng, n, flavour):
 
 
 TIME_FLAVOURS = ["heat-ic", "heat-source", "heat-source-t", "op-t", "op-p", "ic-t", "general"]
+STRUCT_S = ["sym", "zero", "diag", "neg-def", "lower-tri"]
+STRUCT_N = ["nonsym", "upper-tri", "skew", "one-entry"]
+
+
+def gen_structure_family(rng, n, ts, k_star=None, s_kind=None, n_kind=None):
+    """A(t) = S + (t - t*) N: at the grid time t* the operator has the structure of S (symmetric / zero / diagonal /
+    negative definite / lower triangular), at every other time it has not (N non-symmetric / strictly upper triangular /
+    skew / a single off-diagonal entry).  A structure test made on the operator of the PREVIOUS assembly is wrong here."""
+    s_kind = s_kind or rng.choice(STRUCT_S); n_kind = n_kind or rng.choice(STRUCT_N)
+    if s_kind == "sym":
+        M = dym(rng, n, n, -1, 1, 2); S = M + M.T - 2.0 * np.eye(n)
+    elif s_kind == "zero":
+        S = np.zeros((n, n))
+    elif s_kind == "diag":
+        S = -np.diag(np.abs(dyv(rng, n)) + 0.5)
+    elif s_kind == "neg-def":
+        S = laplace(n)
+    else:
+        S = np.tril(dym(rng, n, n, -1, 1, 2)) - 2.0 * np.eye(n)
+    if n_kind == "nonsym":
+        N = dym(rng, n, n, -1, 1, 2); N[0, n - 1] += 1.5
+    elif n_kind == "upper-tri":
+        N = np.triu(dym(rng, n, n, -1, 1, 2), 1); N[0, n - 1] = 1.5
+    elif n_kind == "skew":
+        M = np.triu(dym(rng, n, n, -1, 1, 2), 1); M[0, n - 1] = 1.0; N = M - M.T
+    else:
+        N = np.zeros((n, n)); N[0, n - 1] = 2.0
+    k_star = rng.randrange(max(1, len(ts) - 1)) if k_star is None else k_star
+    t_star = float(ts[k_star])
+    F = {"n": n, "A0": S - t_star * N, "A1": N, "b0": dyv(rng, n), "b1": dyv(rng, n), "C": np.eye(n), "c0": dyv(rng, n)}
+    return F, n, f"op-structure:{s_kind}>{n_kind}"
 
 
 def gen_times(rng, nt, kind):
@@ -401,6 +471,7 @@ def run(ctx):
     check_observe_steady(ctx, cuqi, rng, 120 * S, bump)
     check_pipeline(ctx, cuqi, rng, 150 * S, bump)
     check_gradient(ctx, cuqi, rng, 64 * S)
+    check_solve_histories(ctx, cuqi, rng, 70 * S, bump)
     check_histories(ctx, cuqi, rng, 60 * S, bump)
     check_testproblems(ctx, cuqi, rng, thorough)
 
@@ -453,7 +524,29 @@ def check_time_solve(ctx, cuqi, rng, ncases, bump):
                 ok = all(np.linalg.cond(np.eye(n) - (ts[k] - ts[k - 1]) * fam_eval(F, p, ts[k])[0]) <= 1e4 for k in range(1, nt))
                 if not ok:
                     continue
+        nvar0 = nsig + 2 * len(DT_VARIANTS)
+        if nvar0 <= c < nvar0 + 12 or (c >= nvar0 + 12 and rng.random() < 0.12):
+            # operator structure changing between consecutive assemblies (default solver may exploit structure: it must look at the CURRENT operator)
+            det = c < nvar0 + 12
+            n = max(n, 2)
+            method = "backward_euler" if det or rng.random() < 0.8 else "forward_euler"
+            for _try in range(12):
+                nt = rng.choice([2, 3, 4, 5])
+                ts = np.cumsum([0.0] + [rng.choice([0.0625, 0.125, 0.25]) for _ in range(nt - 1)])
+                if rng.random() < 0.3 and not det:
+                    ts = ts + dy(rng, -1, 1, 2)
+                F, npar, flavour = gen_structure_family(rng, n, ts, k_star=(0 if det and c % 2 == 0 else None),
+                                                        s_kind=(STRUCT_S[(c - nvar0) % len(STRUCT_S)] if det else None), n_kind=(STRUCT_N[(c - nvar0) % len(STRUCT_N)] if det else None))
+                p = dyv(rng, npar)
+                if all(np.linalg.cond(np.eye(n) - (ts[k] - ts[k - 1]) * fam_eval(F, p, ts[k])[0]) <= 50 for k in range(1, nt)):
+                    break
+            else:
+                continue
+            gridkind = "structure"
+            skind = rng.choice(DEFAULTISH) if det or rng.random() < 0.8 else rng.choice(["plain", "t2", "kw"])
         sigma = SIGMAS[c % len(SIGMAS)] if c < nsig else (rng.choice(SIGMAS) if rng.random() < 0.2 else 1.0)
+        if gridkind == "structure":
+            sigma = 1.0
         if sigma != 1.0:
             F, ts = scale_time(F, ts, sigma)
             gridkind = gridkind + f":x{sigma:.0e}"
@@ -496,8 +589,9 @@ def check_time_solve(ctx, cuqi, rng, ncases, bump):
                 u, info = pde.solve()
         except Exception as e:  # noqa
             impl_err = errname(e)
-        if snap(p_in, ts_in) != before:
-            ctx.fail(key + ":caller-array-modified", desc, "parameter and time grid passed by the caller unchanged", "modified in place",
+        sh = getattr(vform, "shared", None)
+        if snap(p_in, ts_in) != before or (sh and not (np.array_equal(sh["A"], fam_eval(F, p, ts[0])[0]) and np.array_equal(sh["b"], fam_eval(F, p, ts[0])[1]))):
+            ctx.fail(key + ":caller-array-modified", desc, "parameter, time grid and the arrays returned by PDE_form unchanged", "modified in place",
                      "solve() modifies an array owned by the caller")
         if impl_err:
             bump("errors", "time:" + impl_err)
@@ -861,6 +955,10 @@ def gen_tobs(rng, ts):
     r = rng.random()
     T = float(ts[-1])
     nt = len(ts)
+    if nt >= 4 and np.all(np.diff(ts) > 0) and rng.random() < 0.07:
+        # as many observation times as time steps, same first and last time, interior time(s) moved: NOT 'all'
+        v, _ = interior_shift(rng, ts)
+        return v, "v:" + qv(v), "interior-shift-times"
     if r < 0.18:
         s = rng.choice(["final", "FINAL", "Final"]); return s, "str:" + s, "final"
     if r < 0.32:
@@ -967,6 +1065,16 @@ def check_observe_time(ctx, cuqi, rng, ncases, bump):
             go, gclass = interior_shift(rng, gs)
             grid_sol_none = False
             tobs, ttok, tclass = "final", "str:final", "final"
+        if c1 + 3 <= c < c1 + 7:   # always present: equal grids; one observation time per time step, ends equal, interior moved / all shifted within allclose
+            N = max(N, 4); nt = max(nt, 5); grid_sol_none = False
+            gs = 0.5 * np.arange(N, dtype=float)
+            go, gclass = (None, "none") if c % 2 else (gs.copy(), "equal-copy")
+            if c - (c1 + 3) < 2:
+                ts = gen_times(rng, nt, "nonuniform")
+                v, _ = interior_shift(rng, ts); tobs, ttok, tclass = v, "v:" + qv(v), "interior-shift-times"
+            else:
+                ts, v, nm, _, _ = tolerance_pair(rng, nt, TOL_GRIDS[c % len(TOL_GRIDS)])
+                tobs, ttok, tclass = v, "v:" + qv(v), "tolerance-shift-times-" + nm
         c0 = 3 + 2 * len(TOL_GRIDS)
         if c0 <= c < c0 + 4 and N >= 4:      # always present: observation nodes as a list (sorted repeats are accepted by the spline, other orders refused)
             go, gclass = unsorted_obs_grid(rng, gs, ["subset-repeats-sorted", "subset-repeats-sorted", "subset-decreasing", "subset-shuffled"][c - c0])
@@ -977,7 +1085,7 @@ def check_observe_time(ctx, cuqi, rng, ncases, bump):
         if tclass == "all-final-len0" and (grid_sol_none or gclass not in ("none", "equal-copy")):
             # an array with a zero-length time axis has no faithful list representation on the interpolation branch
             tobs, ttok, tclass = np.array([float(ts[-1])]), "v:" + qv([float(ts[-1])]), "explicit-final"
-        ndim = 3 if (rng.random() < 0.08 and not gclass.startswith("tolerance") and not tclass.startswith("near-final")) else 2
+        ndim = 3 if (rng.random() < 0.08 and not gclass.startswith("tolerance") and not tclass.startswith("near-final") and "shift-times" not in tclass) else 2
         odt = rng.choice(["int-U", "f32-U", "int-grids"]) if rng.random() < 0.12 else None
         if odt == "int-grids" and (gclass.startswith("tolerance") or tclass.startswith("near-final") or grid_sol_none):
             odt = "int-U"
@@ -1525,6 +1633,150 @@ def check_gradient(ctx, cuqi, rng, ncases):
             ctx.disagree(key, desc, short(gm), short(got), "gradient differs from the dispatch rule")
 
 
+# ----------------------------------------------------------------------------------------------- G1b. assemble/solve histories on ONE PDE object
+def check_solve_histories(ctx, cuqi, rng, ncases, bump):
+    """ONE TimeDependentLinearPDE (or SteadyStateLinearPDE) object: assemble(p1); solve(); assemble(p2); solve(); ... with
+    re-assigned method / time grid (one-node, two-node, longer grids, grids sharing their first node with the previous one),
+    the same parameter array modified in place, stray assemble_step(t) calls, solve() repeated.  After EVERY solve the stored
+    levels must satisfy the recurrence for the parameter assembled last and the current grid/method (implementation-only
+    residual oracle) and equal the exact model; every returned array is retained and re-verified at the end."""
+    from cuqi.pde import SteadyStateLinearPDE, TimeDependentLinearPDE
+    cov = ctx.extra_cov["c18"].setdefault("solve_history_ops", {})
+    pending = []
+    for c in range(ncases):
+        steady = (c % 5 == 4)
+        n = rng.randint(2, 4)
+        def short_ts(t0=None):
+            nt = [2, 2, 1, 3, 2, 5][c % 6] if rng.random() < 0.7 else rng.choice([1, 2, 3, 4])
+            t0 = (0.0 if rng.random() < 0.7 else dy(rng, -1, 1, 2)) if t0 is None else t0
+            return np.cumsum([t0] + [rng.choice([0.0625, 0.125, 0.25]) for _ in range(nt - 1)])
+        ts = None if steady else short_ts()
+        if steady:
+            flavour = "source"; npar = n
+            F = {"n": n, "A0": -laplace(n), "b0": dyv(rng, n), "B": np.eye(n)}
+        else:
+            flavour = ["heat-ic", "heat-source", "ic-t", "op-t", "structure", "heat-source-t"][c % 6]
+            if flavour == "structure":
+                tl = ts if len(ts) > 1 else np.array([ts[0], ts[0] + 0.125])
+                F, npar, flavour = gen_structure_family(rng, n, tl)
+            else:
+                F, npar = gen_time_family(rng, n, flavour)
+                F["A0"] = laplace(n)
+        method = METHODS[c % 2]
+        skind = rng.choice(DEFAULTISH + ["plain", "t2"])
+        solver, kwargs, dk = make_solver(skind)
+        try:
+            with quiet():
+                if steady:
+                    pde = SteadyStateLinearPDE(lambda par, F=F: fam_eval(F, par, 0.0)[:2], linalg_solve=solver, linalg_solve_kwargs=kwargs)
+                else:
+                    pde = TimeDependentLinearPDE(lambda par, t, F=F: fam_eval(F, par, t), ts.copy(), method=method, linalg_solve=solver, linalg_solve_kwargs=kwargs)
+        except Exception as e:  # noqa
+            ctx.note(f"solve-history object could not be built: {type(e).__name__}")
+            continue
+        pref, pval = None, None
+        hist, retained = [], []
+        for step in range(rng.randint(5, 9)):
+            r = rng.random()
+            if pref is None:
+                op = "assemble_new"
+            elif r < 0.30:
+                op = "solve"
+            elif r < 0.55:
+                op = "assemble_new"
+            elif r < 0.67:
+                op = "assemble_inplace"
+            elif r < 0.77 and not steady:
+                op = "set_method"
+            elif r < 0.90 and not steady:
+                op = "set_ts"
+            elif r < 0.95 and not steady:
+                op = "assemble_step"
+            else:
+                op = "solve"
+            if hist and hist[-1].startswith("assemble") and op.startswith("assemble") and rng.random() < 0.6:
+                op = "solve"
+            cov[op] = cov.get(op, 0) + 1
+            herr, u, info = None, None, None
+            try:
+                with quiet():
+                    if op == "assemble_new":
+                        pref = dyv(rng, npar); pval = pref.copy(); pde.assemble(pref)
+                    elif op == "assemble_inplace":
+                        pref[rng.randrange(npar)] += rng.choice([1.0, 0.5, -1.5]); pval = pref.copy(); pde.assemble(pref)
+                    elif op == "set_method":
+                        method = [m_ for m_ in METHODS if m_ != method][0]; pde.method = method
+                    elif op == "set_ts":
+                        ts = short_ts(t0=float(ts[0]) if rng.random() < 0.7 else None); pde.time_steps = ts.copy()
+                    elif op == "assemble_step":
+                        pde.assemble_step(float(rng.choice(ts.tolist())))
+                    else:
+                        u, info = pde.solve()
+            except Exception as e:  # noqa
+                herr = errname(e)
+            hist.append(op)
+            if op != "solve":
+                continue
+            desc = {"pde": "steady" if steady else "time", "flavour": flavour, "n": n, "solver": skind, "history": list(hist), "p": pval.tolist()}
+            if not steady:
+                desc.update(method=method, time_steps=ts.tolist())
+            prev = next((h for h in reversed(hist[:-1]) if h != "assemble_new"), "none")
+            key = (f"SteadyStateLinearPDE.solve:history:after-{prev}" if steady else
+                   f"TimeDependentLinearPDE.solve:history:{method}:nt{min(len(ts), 3)}:after-{prev}")
+            ctx.case("solve-history", desc)
+            # which outcome does the pinned code have here? (backward Euler on a one-node grid dies on the unbound info)
+            if steady:
+                line = f"steady {n} {dk} {fam_tokens(F)} {npar} a:{qv(pval)}|s"
+            else:
+                line = f"time {n} {method} {dk} {qv(ts)} {fam_tokens(F)} {qv(pval)}"
+            if herr is not None:
+                pending.append((line, None, herr, key, desc, None))
+                continue
+            u = np.array(u, dtype=float)
+            # ---- oracle (implementation only): discrete equations for the CURRENT parameter / grid / method
+            if steady:
+                A, b, _ = fam_eval(F, pval, 0.0)
+                den = np.abs(b).max() + np.abs(A).sum(axis=1).max() * np.abs(u).max()
+                res = float(np.abs(A @ u - b).max() / (den if den > 0 else 1.0)) if u.shape == (n,) else float("inf")
+                where = 0
+            else:
+                res, where = time_residual(F, pval, ts, method, u)
+            bad = not (res <= TOL)
+            if bad:
+                ctx.fail(key, desc, f"discrete equations for the parameter assembled last (scaled residual <= {TOL})",
+                         f"scaled residual {res:.3e} at level {where}; u={short(u)}",
+                         "solve() on a re-used PDE object does not solve the discrete equations of the current parameter/grid/method")
+            retained.append((u_obj := u, u.copy()))
+            pending.append((line, u, None, key, desc, bad))
+        # (G8) retained outputs
+        for kept, copy_ in retained:
+            if not np.array_equal(kept, copy_):
+                ctx.fail("PDE.solve:history:retained-output-overwritten", {"history": hist}, "arrays returned earlier unchanged", "overwritten by a later call",
+                         "a later call overwrites a solution array returned earlier")
+    outs = ctx.lean.drive([p_[0] for p_ in pending])
+    for (line, u, herr, key, desc, bad), out in zip(pending, outs):
+        mo = out.split("|")[-1] if line.startswith("steady") else out
+        if mo.startswith("err:"):
+            if herr is None:
+                if mo == "err:UnboundLocalError" and not bad:
+                    ctx.note("implementation returns a correct solution where the pinned code raised UnboundLocalError (history)")
+                else:
+                    ctx.disagree(key, desc, mo, short(u), "model refuses, implementation returns")
+            continue
+        if herr is not None:
+            ctx.disagree(key, desc, mo[:100], "err:" + herr, "implementation refuses, model returns")
+            ctx.fail(key, desc, "a solution of the discrete equations", "err:" + herr, "solve() on a re-used PDE object raises on a valid input")
+            continue
+        toks = mo.split(" ")
+        if line.startswith("steady"):
+            um = np.array([float(x) for x in pv(toks[1])])
+        else:
+            rows = pm(toks[1])
+            um = np.array([[float(x) for x in r] for r in rows], dtype=float).reshape(len(rows), -1).T
+        if not arr_same(um, u):
+            ctx.disagree(key, desc, short(um), short(u), "stored levels after this history differ from the exact recurrence")
+
+
 # ----------------------------------------------------------------------------------------------- G2. call histories on ONE object
 def check_histories(ctx, cuqi, rng, ncases, bump):
     """One PDE object and one PDEModel, a history of calls and re-configurations.  After every forward/gradient/observe the
@@ -1554,31 +1806,38 @@ def check_histories(ctx, cuqi, rng, ncases, bump):
             F["A0"] = laplace(N)
             newx = lambda: dyv(rng, npar)
 
+        shortgrid = (not steady) and (c % 3 == 1)      # one-step / two-step time grids: only the no-interpolation branch is available
+
         def new_ts():
-            nt = rng.choice([4, 5, 6])
+            nt = rng.choice([4, 5, 6]) if not shortgrid else [2, 2, 3, 2][c % 4]
             t = gen_times(rng, nt, rng.choice(["uniform", "nonuniform"]))
             return (t - t[0]) / 4
 
         def new_go():
+            if shortgrid:
+                return None
             g, _ = gen_obs_grid(rng, gs)
             return g
 
         def new_om(go):
             kind = rng.choice(["id", "sq", "sc", "take"])
             return make_om(rng, kind, len(gs if go is None else go))
-        cfg = {"go": new_go(), "method": rng.choice(METHODS), "ts": None if steady else new_ts()}
+        gs0 = gs
+        cfg = {"go": new_go(), "method": rng.choice(METHODS), "ts": None if steady else new_ts(), "gs": gs}
         cfg["om"], cfg["omtok"] = new_om(cfg["go"])
         if not steady:
             tob, _, tcl = gen_tobs(rng, cfg["ts"])
             while tcl in ("bad-string", "none") or tcl.startswith("all-final-len"):
                 tob, _, tcl = gen_tobs(rng, cfg["ts"])
-            cfg["tobs_arg"] = tob
+            cfg["tobs_arg"] = "final" if shortgrid else tob
+            if shortgrid:
+                cfg["method"] = METHODS[(c // 3) % 2]
 
         def build(cfg, cls_s=SteadyStateLinearPDE, cls_t=TimeDependentLinearPDE):
             if steady:
-                return cls_s(lambda par, F=F: fam_eval(F, par, 0.0)[:2], grid_sol=gs, grid_obs=cfg["go"], observation_map=cfg["om"])
+                return cls_s(lambda par, F=F: fam_eval(F, par, 0.0)[:2], grid_sol=cfg["gs"], grid_obs=cfg["go"], observation_map=cfg["om"])
             return cls_t(lambda par, t, F=F: fam_eval(F, par, t), cfg["ts"], method=cfg["method"], time_obs=cfg["tobs_arg"],
-                         grid_sol=gs, grid_obs=cfg["go"], observation_map=cfg["om"])
+                         grid_sol=cfg["gs"], grid_obs=cfg["go"], observation_map=cfg["om"])
 
         def fresh_forward(cfg, xv):
             c2 = dict(cfg)
@@ -1602,6 +1861,7 @@ def check_histories(ctx, cuqi, rng, ncases, bump):
             with quiet():
                 pde = build(cfg, SJ, TJ)
                 model = PDEModel(pde, Continuous1D(N), Continuous1D(npar))
+                model_b = PDEModel(pde, Continuous1D(N), Continuous1D(npar))      # a second owner of the same PDE object
         except Exception as e:  # noqa
             ctx.note(f"history object could not be built: {type(e).__name__}")
             continue
@@ -1609,6 +1869,7 @@ def check_histories(ctx, cuqi, rng, ncases, bump):
             cfg["tobs"] = np.asarray(pde._time_obs, dtype=float).copy()
         xref = None
         hist = []
+        force_fwd = False
         nops = rng.randint(5, 10)
         for step in range(nops):
             r = rng.random()
@@ -1634,6 +1895,14 @@ def check_histories(ctx, cuqi, rng, ncases, bump):
                 op = "grad"
             else:
                 op = "assemble_other"
+            if shortgrid and op in ("set_grid_obs", "set_tobs"):
+                op = "fwd_new"
+            if op in ("set_om", "set_grid_obs") and not shortgrid and rng.random() < 0.35:
+                op = "set_grid_sol"
+            if op in ("fwd_inplace", "fwd_equal_copy") and rng.random() < 0.2:
+                op = "fwd_other_model"
+            if force_fwd and xref is not None:
+                op = rng.choice(["fwd_equal_copy", "fwd_new"]); force_fwd = False
             cov[op] = cov.get(op, 0) + 1
             y, xval, what = None, None, None
             herr = None
@@ -1647,10 +1916,21 @@ def check_histories(ctx, cuqi, rng, ncases, bump):
                         xval = xref.copy(); y = model.forward(xref)
                     elif op == "fwd_equal_copy":
                         x2 = xref.copy(); xval = x2.copy(); y = model.forward(x2)
+                    elif op == "fwd_other_model":
+                        xref = newx(); xval = xref.copy(); y = model_b.forward(xref)
                     elif op == "set_grid_obs":
                         cfg["go"] = new_go(); pde.grid_obs = cfg["go"]
                         if cfg["omtok"].startswith("take") or cfg["omtok"].startswith("left"):
                             pass
+                    elif op == "set_grid_sol":
+                        # e.g. the mesh is moved/refined while the sensors stay: grid_obs keeps the nodes it had
+                        if rng.random() < 0.6:          # the sensors sit on the current solution nodes ...
+                            cfg["go"] = None; pde.grid_obs = None
+                        if cfg["go"] is None:
+                            cfg["go"] = np.array(cfg["gs"], dtype=float).copy()
+                        newg = interior_shift(rng, gs0)[0] if rng.random() < 0.8 else gs0.copy()      # ... and the mesh moves
+                        cfg["gs"] = newg; pde.grid_sol = newg
+                        force_fwd = True
                     elif op == "set_om":
                         cfg["om"], cfg["omtok"] = new_om(cfg["go"]); pde.observation_map = cfg["om"]
                     elif op == "set_method":
@@ -1658,6 +1938,8 @@ def check_histories(ctx, cuqi, rng, ncases, bump):
                     elif op == "set_ts":
                         old = cfg["ts"]
                         t = new_ts()
+                        if shortgrid and rng.random() < 0.5:
+                            t = t[[0, -1]]                                                 # exactly one step
                         t = old[0] + (t - t[0]) * (old[-1] - old[0]) / (t[-1] - t[0])     # same span, other levels
                         t[-1] = old[-1]
                         cfg["ts"] = t; pde.time_steps = t
@@ -1689,9 +1971,11 @@ def check_histories(ctx, cuqi, rng, ncases, bump):
                 herr = type(e).__name__
             hist.append(op)
             if xval is None:
+                if herr is not None and op != "grad":
+                    raise RuntimeError(f"history op {op} raised {herr} (harness bug or a setter that refuses a valid value)")
                 continue
             # ---- reference: a fresh object with the current configuration
-            desc = {"pde": "steady" if steady else "time", "flavour": flavour, "N": N, "history": list(hist), "x": xval.tolist(), "grid_sol": gs.tolist(),
+            desc = {"pde": "steady" if steady else "time", "flavour": flavour, "N": N, "history": list(hist), "x": xval.tolist(), "grid_sol": np.asarray(cfg["gs"]).tolist(),
                     "grid_obs": None if cfg["go"] is None else np.asarray(cfg["go"]).tolist(), "obs_map": cfg["omtok"]}
             if not steady:
                 desc.update(method=cfg["method"], time_steps=cfg["ts"].tolist(), time_obs=cfg["tobs"].tolist())
@@ -1735,14 +2019,15 @@ def check_histories(ctx, cuqi, rng, ncases, bump):
                 ctx.fail(key, desc, "pipeline for the CURRENT parameter/configuration (fresh object): " + short(ref), short(y),
                          "output of a re-used PDE/PDEModel object is not that of the assemble-solve-observe pipeline for the current parameter and configuration")
             # ---- tie: the exact model at the current configuration
-            go_eff = gs if cfg["go"] is None else np.asarray(cfg["go"], dtype=float)
-            gtok = f"init:{grid_tok(gs)}:{grid_tok(cfg['go'])}"
+            gsc = cfg["gs"]
+            go_eff = gsc if cfg["go"] is None else np.asarray(cfg["go"], dtype=float)
+            gtok = f"init:{grid_tok(gsc)}:{grid_tok(cfg['go'])}"
             try:
                 with quiet():
                     if steady:
-                        Wtok = qv(np.asarray(scipy.interpolate.interp1d(gs, rsol, kind="quadratic")(go_eff), dtype=float))
+                        Wtok = qv(np.asarray(scipy.interpolate.interp1d(gsc, rsol, kind="quadratic")(go_eff), dtype=float))
                     else:
-                        Wm = np.asarray(scipy.interpolate.RectBivariateSpline(gs, cfg["ts"], rsol)(go_eff, cfg["tobs"]), dtype=float)
+                        Wm = np.asarray(scipy.interpolate.RectBivariateSpline(gsc, cfg["ts"], rsol)(go_eff, cfg["tobs"]), dtype=float)
                         Wtok = qm(Wm)
             except Exception:
                 Wtok = "err"
@@ -1751,6 +2036,10 @@ def check_histories(ctx, cuqi, rng, ncases, bump):
             else:
                 line = f"pipet {N} {cfg['method']} plain {qv(cfg['ts'])} {fam_tokens(F)} {qv(xval)} {gtok} v:{qv(cfg['tobs'])} {Wtok} {cfg['omtok']}"
             pending.append((line, y, key, desc))
+    if ncases >= 30:
+        missing = [o for o in ("fwd_new", "fwd_inplace", "fwd_equal_copy", "fwd_other_model", "set_grid_obs", "set_om", "set_method", "set_ts", "manual", "grad") if cov.get(o, 0) < 3]
+        if missing:
+            raise RuntimeError(f"history generator does not exercise {missing} (generator broken)")
     outs = ctx.lean.drive([p_[0] for p_ in pending])
     for (line, y, key, desc), out in zip(pending, outs):
         if out.startswith("err:") or out == "bad-op":
